@@ -36,6 +36,19 @@ Ltac step_by H tac :=
 Lemma exec_list_nil fuel esc s r : exec_list c fuel esc s [] = Ok r -> r = (SigNormal, s).
 Proof. destruct fuel; cbn; intros H; inversion H; reflexivity. Qed.
 
+Lemma assign_sim tgt s item s3 pc stk esc escs caps its calls :
+  bind_target tgt s item = Ok s3 -> code_at C pc (assign_code tgt) ->
+  star (mkVm pc (item :: stk) s esc escs caps its calls)
+       (mkVm (pc + length (assign_code tgt)) stk s3 esc escs caps its calls).
+Proof.
+  intros Hb Hc. destruct tgt as [x|x y]; cbn [assign_code bind_target length] in *.
+  - inversion Hb; subst. step_by Hc idtac. eapply star_eq; [constructor|]. f_equal. lia.
+  - destruct (unpack_items item) as [l|] eqn:Eu; [|discriminate]. destruct l as [|a [|b [|? ?]]]; try discriminate.
+    inversion Hb; subst.
+    step_by Hc ltac:(rewrite Eu). apply code_at_tail in Hc. cbn [app]. step_by Hc idtac. apply code_at_tail in Hc.
+    step_by Hc idtac. eapply star_eq; [constructor|]. f_equal. lia.
+Qed.
+
 Lemma binds_sim fuel esc binds : eval_inv c C fuel -> (forall esc e, l2_expr e = true -> sim_expr fuel esc e) ->
   forallb (fun p => l2_expr (snd p)) binds = true ->
   forall s s', with_binds (eval c fuel esc) s binds = Ok s' -> Inv s ->
@@ -47,15 +60,15 @@ Proof.
   - cbn in He. inversion He; subst. cbn. rewrite Nat.add_0_r. constructor.
   - cbn [forallb snd] in Hw. apply andb_prop in Hw as [Hx Hr].
     cbn [with_binds] in He. fold (with_binds (eval c fuel esc)) in He.
-    bstep He p1 E1. destruct p1 as [v s1].
+    bstep He p1 E1. destruct p1 as [v s1]. bstep He s2 E2.
     destruct (EV esc e Hx _ _ _ Hi E1) as [V1 I1].
     cbn [binds_code] in Hc |- *. fold binds_code in Hc |- *.
     eapply star_trans. { eapply (IHe esc e Hx _ _ _ E1 ltac:(assumption)). eapply code_at_app_l; eauto. }
     apply code_at_app_r in Hc.
-    step_by Hc idtac. apply code_at_tail in Hc.
-    replace (S (base + length (compile_expr e base))) with (base + length (compile_expr e base) + 1) in * by lia.
-    eapply star_eq. { eapply (IH Hr _ _ He); [apply store_Inv; auto|exact Hc]. }
-    f_equal. rewrite app_length. cbn [length]. lia.
+    eapply star_trans. { eapply (assign_sim x _ _ _ _ _ _ _ _ _ _ E2). eapply code_at_app_l; eauto. }
+    apply code_at_app_r in Hc.
+    eapply star_eq. { eapply (IH Hr _ _ He); [eapply bind_target_Inv; eauto|exact Hc]. }
+    f_equal. rewrite !app_length. lia.
 Qed.
 
 Lemma do_filter_str_defined md esc f b t v : do_filter md esc f (VStr b t) [] = Ok v -> is_strict_undef v = false.
@@ -232,19 +245,6 @@ Proof.
     + destruct escs; [rewrite (step_at _ _ _ _ _ _ _ _ _ H); reflexivity|apply IH; exact H].
 Qed.
 
-Lemma assign_sim tgt s item s3 pc stk esc escs caps its calls :
-  bind_target tgt s item = Ok s3 -> code_at C pc (assign_code tgt) ->
-  star (mkVm pc (item :: stk) s esc escs caps its calls)
-       (mkVm (pc + length (assign_code tgt)) stk s3 esc escs caps its calls).
-Proof.
-  intros Hb Hc. destruct tgt as [x|x y]; cbn [assign_code bind_target length] in *.
-  - inversion Hb; subst. step_by Hc idtac. eapply star_eq; [constructor|]. f_equal. lia.
-  - destruct item as [| | | | | |l| | |]; try discriminate. destruct l as [|a [|b [|? ?]]]; try discriminate.
-    inversion Hb; subst.
-    step_by Hc idtac. apply code_at_tail in Hc. cbn [app]. step_by Hc idtac. apply code_at_tail in Hc.
-    step_by Hc idtac. eapply star_eq; [constructor|]. f_equal. lia.
-Qed.
-
 (* Interp's state [s] and the VM's state [sv] at the Iterate instruction before iteration [i] *)
 Definition head_rel (i n : Z) (s sv : st) : Prop :=
   s_clos sv = s_clos s /\ s_out sv = s_out s /\ s_asks sv = s_asks s /\
@@ -258,14 +258,6 @@ Definition tail_rel (n : Z) (s5 sv5 : st) : Prop :=
 
 Lemma hdl_some s l : hdl s = Some (Some l) -> exists f e, s_env s = f :: e /\ f_loop f = Some l.
 Proof. unfold hdl. destruct (s_env s) as [|f e]; intros H; inversion H. eauto. Qed.
-
-Lemma bind_target_hdl tgt s item s3 : bind_target tgt s item = Ok s3 -> hdl s3 = hdl s.
-Proof.
-  destruct tgt as [x|x y]; cbn [bind_target]; intros H.
-  - inversion H. apply store_hdl.
-  - destruct item as [| | | | | |l| | |]; try discriminate. destruct l as [|a [|b [|? ?]]]; try discriminate.
-    inversion H. now rewrite !store_hdl.
-Qed.
 
 Lemma loop_sim fuel esc tgt body n it loop_end body_at its0 : list_inv c C fuel ->
   sim_list fuel -> forallb (l2_stmt true) body = true ->
@@ -353,7 +345,7 @@ Lemma bind_target_relab L tgt s item s3 : s_env s <> [] ->
 Proof.
   intros Hne. destruct tgt as [x|x y]; cbn [bind_target]; intros H.
   - inversion H; subst. now rewrite store_relab.
-  - destruct item as [| | | | | |l| | |]; try discriminate. destruct l as [|a [|b [|? ?]]]; try discriminate.
+  - destruct (unpack_items item) as [[|a [|b [|? ?]]]|]; try discriminate.
     inversion H; subst. rewrite store_relab by exact Hne. rewrite store_relab by (apply store_env_ne; exact Hne). reflexivity.
 Qed.
 
@@ -366,7 +358,7 @@ Lemma bind_target_topc tgt s item s3 : bind_target tgt s item = Ok s3 -> topc s3
 Proof.
   destruct tgt as [x|x y]; cbn [bind_target]; intros H.
   - inversion H. apply store_topc.
-  - destruct item as [| | | | | |l| | |]; try discriminate. destruct l as [|a [|b [|? ?]]]; try discriminate.
+  - destruct (unpack_items item) as [[|a [|b [|? ?]]]|]; try discriminate.
     inversion H. now rewrite !store_topc.
 Qed.
 
@@ -812,9 +804,11 @@ Proof.
         rewrite ?app_length. cbn [length]. rewrite ?app_length. cbn [length]. rewrite ?app_length. cbn [length].
         lia.
     + (* SSet *) cbn [compile_stmt] in Hc |- *.
-      bstep He p1 E1. destruct p1 as [v s1]. inversion He; subst. eexists; split; [|reflexivity].
+      bstep He p1 E1. destruct p1 as [v s1]. bstep He s2 E2. inversion He; subst. eexists; split; [|reflexivity].
       eapply star_trans. { eapply (IHe esc e Hw _ _ _ E1 ltac:(assumption)). eapply code_at_app_l; eauto. }
-      apply code_at_app_r in Hc. step_by Hc idtac. eapply star_eq; [constructor|]. f_equal. lens.
+      apply code_at_app_r in Hc.
+      eapply star_eq. { eapply (assign_sim t _ _ _ _ _ _ _ _ _ _ E2). exact Hc. }
+      f_equal. lens.
     + (* SSetBlock *) cbn [compile_stmt] in Hc |- *.
       bstep He p1 E1. destruct p1 as [[sg1 txt] s1]. bstep E1 p2 E2. destruct p2 as [sg2 s2]. inversion E1; subst. clear E1.
       pose proof (code_at_head _ _ _ _ Hc) as Hb. apply code_at_tail in Hc.
@@ -890,7 +884,7 @@ Proof.
       destruct (enclose c s1 (macro_closure [] [] body)) as [s2 cl] eqn:Ee.
       pose proof (enclose_Inv c C Hcfg _ _ _ _ I1 Ee) as I2.
       destruct (lookup c s2 m) as [fv s3] eqn:El. destruct (lookup_ok c C Hcfg _ _ _ _ I2 El) as [Vf I3].
-      destruct fv as [[| | | | | | |mc mcl| |g]|]; try discriminate.
+      destruct fv as [[| | | | | | | |mc mcl| |g]|]; try discriminate.
       bstep He p4 E4. destruct p4 as [v s4]. inversion He; subst sg s'. clear He.
       set (cm := mkMacro N_caller [] [] body (uses_caller [] [] body)) in *.
       assert (Vcm : vok (VMacro cm cl)).
